@@ -959,10 +959,52 @@ def check_plain_json(ck, R):
           "other language implementations reject it", pm.where(dumps[0]))
 
 
+def check_dict_keys_survive(ck, R):
+    """A dictionary argument is written as a JSON object, whose member names are strings: a key that is not a string comes back as
+    its text (`{1: 'a'}` is read as `{'1': 'a'}`), so the decoded arguments and the hash recomputed from them differ from the
+    originals.  Either the argument encoder types the keys, or non-string keys are refused where arguments are validated."""
+    ck.rule(R, "dictionary arguments survive the codec: keys are typed on the wire or restricted to strings at validation", 1)
+    ea = FA(ck, MC + ".encode_arg")
+    typed = False
+    for n in A.walk_body(ea.node):
+        if isinstance(n, ast.DictComp) and ea.nodes(ea.stmt_of(n) or n):
+            # {k: encode(v) ...}: is the key itself passed through an encoder / a str() check?
+            if any(isinstance(x, ast.Call) for x in ast.walk(n.key)):
+                typed = True
+    va = ck.repo.try_func("reference.validate_args")
+    checked = False
+    if va is not None:
+        unit = [va] + list(va.nested.values())
+        for m_ in ck.repo.module("reference").all_funcs():
+            if m_.parent is None and m_.cls is None and any(isinstance(c, ast.Call) and isinstance(c.func, ast.Name) and c.func.id == m_.name for f_ in unit for c in ast.walk(f_.node)):
+                unit.append(m_)
+        for f_ in unit:
+            for x in ast.walk(f_.node):
+                it = A.isinstance_types(x) if isinstance(x, ast.Call) else None
+                # a type test on the KEY of a dictionary entry (the loop / comprehension variable bound to the key of .items() or
+                # to the iteration of the dict itself / .keys())
+                if it and set(it[1]) == {"str"}:
+                    subj = it[0]
+                    for y in ast.walk(f_.node):
+                        gens = y.generators if isinstance(y, (ast.ListComp, ast.SetComp, ast.GeneratorExp, ast.DictComp)) else ([y] if isinstance(y, ast.For) else [])
+                        for g in gens:
+                            tg, itr = g.target, g.iter
+                            keyname = tg.elts[0].id if isinstance(tg, ast.Tuple) and tg.elts and isinstance(tg.elts[0], ast.Name) and isinstance(itr, ast.Call) and A.call_attr(itr) == "items" else \
+                                (tg.id if isinstance(tg, ast.Name) and (not isinstance(itr, ast.Call) or A.call_attr(itr) == "keys") else None)
+                            if keyname == subj:
+                                checked = True
+    ok = typed or checked
+    ck.ob(R, ea.key(None, "dict-keys-survive"), ok, "dictionary keys are typed on the wire or restricted to strings" if ok else
+          "encode_arg writes a dictionary argument as a JSON object with the keys as they are and validate_args does not look at keys: a call such "
+          "as f({1: 'a'}) is memoized under a hash computed from the integer key, but its stored memento decodes to {'1': 'a'}, whose "
+          "argument hash differs - the decoded memento is not the one that was stored", ea.where())
+
+
 def check(ck):
     from .memo import check_new_memo_tables
     ck.run(check_new_memo_tables, ck, "C11.M1", ('serialization', 'reference', 'metadata'))
     ck.run(check_plain_json, ck, "C11.R8")
+    ck.run(check_dict_keys_survive, ck, "C11.R9")
     R1, R2, R3, R4, R5 = ("C11.R%d" % i for i in range(1, 6))
     ck.rule(R1, "pairwise key agreement: for each encode/decode pair the keys of the emitted object equal the keys the decoder reads", 7)
     ck.rule(R2, "field coverage: for each rebuilt class, constructor parameters == keyword arguments the decoder passes, "
